@@ -14,6 +14,8 @@ type profile struct {
 	handlerEnd  int // percent chance per round (late) that the handler returns
 	headers     int
 	stall       bool // the receiver never receives: back-pressure runs
+	headerPoll  bool // ... but keeps asking for the headers (a metadata-logging wrapper)
+	slowPoll    bool // a receiver that alternates Header() and RecvMsg, half as often as the handler sends
 	kinds       []string
 	returnCodes []int64
 }
@@ -52,7 +54,20 @@ func genNext(r *hx.Rand, p profile, kind string) func(map[string]bool, int) *sOp
 			if !busy["CC"] && r.Chance(15) {
 				cand = append(cand, sOp{actor: "CC", kind: "CClose"})
 			}
-			if !busy["CR"] && !p.stall {
+			if !busy["CR"] && p.stall && p.headerPoll {
+				cand = append(cand, sOp{actor: "CR", kind: "CHeader"}, sOp{actor: "CR", kind: "CHeader"})
+			}
+			if !busy["CR"] && p.slowPoll {
+				cand = append(cand, sOp{actor: "CR", kind: "CHeader"})
+				if r.Chance(50) {
+					cand = append(cand, sOp{actor: "CR", kind: "CRecv"})
+				}
+				cand = append(cand, sOp{actor: "H", kind: "HSend", x: 100 + nextID}, sOp{actor: "H", kind: "HSend", x: 100 + nextID})
+				if busy["H"] || returned {
+					cand = cand[:len(cand)-2]
+				}
+			}
+			if !busy["CR"] && !p.stall && !p.slowPoll {
 				cand = append(cand, sOp{actor: "CR", kind: "CRecv"}, sOp{actor: "CR", kind: "CRecv"})
 				if r.Chance(p.headers) {
 					cand = append(cand, sOp{actor: "CR", kind: "CHeader"})
@@ -182,6 +197,25 @@ func init() {
 		}
 		// a receiver that performs no receive, in every kind and direction, with and without pending headers
 		runStreamProfile(o, r, profile{name: "stalled", rounds: [2]int{4, 14}, cancel: 10, handlerEnd: 5, headers: 35, stall: true, kinds: []string{"BD", "SS", "CS"}, returnCodes: []int64{0}}, n)
+		// a receiver that does not receive but keeps calling Header(), against a handler that sets no headers
+		runStreamProfile(o, r, profile{name: "header_polling", rounds: [2]int{6, 14}, cancel: 5, handlerEnd: 5, headers: 0, stall: true, headerPoll: true, kinds: []string{"BD", "SS"}, returnCodes: []int64{0}}, n/3)
+		runStreamProfile(o, r, profile{name: "header_polling_handler_sets_headers", rounds: [2]int{6, 14}, cancel: 5, handlerEnd: 5, headers: 60, stall: true, headerPoll: true, kinds: []string{"BD", "SS"}, returnCodes: []int64{0}}, n/3)
+		// written-out schedules around Header(): pending headers, then sends, then Header() calls and receives
+		{
+			H := func(k string, x int64) sOp { return sOp{actor: "H", kind: k, x: x} }
+			CR := func(k string) sOp { return sOp{actor: "CR", kind: k} }
+			hdr := sOp{actor: "H", kind: "HSetHeader", md: []int64{1}}
+			runFixedSchedules(o, "header_corpus", []string{"BD", "SS"}, [][]sOp{
+				{hdr, H("HSend", 101), H("HSend", 102), CR("CHeader"), H("HSend", 103), CR("CHeader"), H("HSend", 104), CR("CRecv"), CR("CHeader"), H("HSend", 105)},
+				{H("HSend", 101), H("HSend", 102), CR("CHeader"), H("HSend", 103), CR("CHeader"), H("HSend", 104), CR("CRecv"), CR("CHeader"), H("HSend", 105), CR("CRecv"), CR("CHeader"), H("HSend", 106)},
+				{hdr, CR("CHeader"), H("HSend", 101), H("HSend", 102), H("HSend", 103), CR("CHeader"), CR("CRecv"), H("HSend", 104), CR("CHeader")},
+				{{actor: "H", kind: "HSendHeader", md: []int64{2}}, H("HSend", 101), H("HSend", 102), CR("CHeader"), H("HSend", 103), CR("CHeader")},
+			})
+		}
+		// the same with a receiver that also receives now and then, slower than the sender, and with handler headers
+		runStreamProfile(o, r, profile{name: "header_polling_slow_receiver", rounds: [2]int{8, 16}, cancel: 5, handlerEnd: 5, headers: 30, slowPoll: true, kinds: []string{"BD", "SS"}, returnCodes: []int64{0}}, n/2)
+		// the handler returns while a client send is blocked on the full buffer
+		runStreamProfile(o, r, profile{name: "return_while_send_blocked", rounds: [2]int{5, 10}, cancel: 0, handlerEnd: 70, headers: 10, stall: true, kinds: []string{"BD", "CS"}, returnCodes: []int64{0, 5}}, n/3)
 		// slow receivers: receive now and then while the sender keeps trying
 		runStreamProfile(o, r, profile{name: "slow", rounds: [2]int{6, 16}, cancel: 10, handlerEnd: 10, headers: 50, kinds: []string{"BD", "SS", "CS"}, returnCodes: []int64{0, 5}}, n)
 		o.Shard = 30
